@@ -35,11 +35,20 @@ func getWA(P *Program) *waEnv {
 }
 
 func (w *waEnv) get(ct *CodecType, m string, cut bool) (*NFA, []string) {
-	k := fmt.Sprintf("%s|%s|%v", ct.Name, m, cut)
+	if cut {
+		return w.getAssume(ct, m, 1)
+	}
+	return w.getAssume(ct, m, 0)
+}
+
+// getAssume: the automaton of a method under a sign assumption for block
+// counts (0 none, 1 all non-negative, 2 all negative).
+func (w *waEnv) getAssume(ct *CodecType, m string, assume int) (*NFA, []string) {
+	k := fmt.Sprintf("%s|%s|%d", ct.Name, m, assume)
 	if n, ok := w.auto[k]; ok {
 		return n, w.probs[k]
 	}
-	n, probs, negs := methodAutomaton(w.P, ct.M[m], m, cut)
+	n, probs, negs := methodAutomaton(w.P, ct.M[m], m, assume)
 	w.auto[k], w.probs[k], w.negs[k] = n, probs, negs
 	return n, probs
 }
@@ -336,166 +345,115 @@ func ruleWASpec(c *Ctx, sides string) {
 
 // ---------- WA-NEG
 
-// negRegion returns the blocks dominated by the true successor of a
-// "count < 0" test.
-func negRegion(iff *ssa.If) (entry *ssa.BasicBlock, region map[*ssa.BasicBlock]bool, ok bool) {
-	b := iff.Block()
-	entry = b.Succs[0]
-	if !edgeOnly(b, entry) {
-		return nil, nil, false
+// signSpecs: the specification's grammar for an array or map restricted to
+// blocks without (pos) and with (neg) a byte size, for Read and for Skip.
+func signSpecs(st string) (pos, negRead, negSkip string, ok bool) {
+	switch st {
+	case "array":
+		return "( V S * ) * V", "( V V S * ) * V", "( V V L ? ) * V", true
+	case "map":
+		return "( V ( V L ? S ) * ) * V", "( V V ( V L ? S ) * ) * V", "( V V L ? ) * V", true
 	}
-	region = map[*ssa.BasicBlock]bool{}
-	for _, x := range b.Parent().Blocks {
-		if entry.Dominates(x) {
-			region[x] = true
-		}
-	}
-	return entry, region, true
+	return "", "", "", false
 }
 
 func ruleWANeg(c *Ctx) {
-	c.Rule("WA-NEG", "a negative block count is handled as the specification lays it out: Read negates it and discards one varint (the byte size); Skip reads the byte size and skips exactly that many bytes without visiting items", 4)
+	c.Rule("WA-NEG", "a negative block count is handled as the specification lays it out: Read negates it and discards one varint (the byte size); Skip reads the byte size and skips exactly that many bytes without visiting items; a non-negative count is followed directly by the items", 4)
 	P := c.P
 	w := getWA(P)
 	for _, ct := range P.CodecTypes() {
+		var sts []string
+		for st := range w.avro[ct.Name] {
+			if _, _, _, ok := signSpecs(st); ok {
+				sts = append(sts, st)
+			}
+		}
+		if len(sts) != 1 {
+			continue
+		}
+		pos, negRead, negSkip, _ := signSpecs(sts[0])
 		for _, m := range []string{"Read", "Skip"} {
-			w.get(ct, m, false)
-			negs := w.negs[fmt.Sprintf("%s|%s|%v", ct.Name, m, false)]
 			fn := ct.M[m]
-			seen := map[*ssa.If]bool{}
-			for _, iff := range negs {
-				if seen[iff] || iff.Parent() != fn {
-					continue
-				}
-				seen[iff] = true
-				key := fmt.Sprintf("%s.%s/negative-count", ct.Name, m)
-				pos := P.pos(iff.Pos())
-				entry, region, ok := negRegion(iff)
-				if !ok {
-					c.Unk(key, pos, "the negative-count edge joins other control flow immediately (idiom not understood)")
-					continue
-				}
-				_ = entry
-				cmp, _ := asCmp(iff.Cond, true)
-				count := cmp.X
-				var varints []*ssa.Call
-				var skips []*ssa.Call
-				var subs int
-				for b := range region {
-					// only non-error blocks matter for tokens, but any token call in the region counts
-					for _, in := range b.Instrs {
-						call, ok := in.(*ssa.Call)
-						if !ok {
-							continue
-						}
-						if call.Call.IsInvoke() && isCodecIface(P, call.Call.Value.Type()) {
-							switch call.Call.Method.Name() {
-							case "Read", "Skip":
-								subs++
+			key := fmt.Sprintf("%s.%s/negative-count", ct.Name, m)
+			origins, ifs := blockCountOrigins(P, fn)
+			if len(origins) == 0 {
+				c.Bad(key, P.pos(fn.Pos()), "no test of the block count's sign was found in the block loop: size-prefixed blocks are not handled")
+				continue
+			}
+			ipos := P.pos(ifs[0].Pos())
+			an, pn := w.getAssume(ct, m, 2)
+			ap, pp := w.getAssume(ct, m, 1)
+			if len(pn)+len(pp) > 0 {
+				c.Unk(key, ipos, strings.Join(append(pn, pp...), "; "))
+				continue
+			}
+			negSpec := negRead
+			if m == "Skip" {
+				negSpec = negSkip
+			}
+			sn, sp := compileRegex(negSpec), compileRegex(pos)
+			an, ap = an.relabel(sLabel), ap.relabel(sLabel)
+			if ok, wit := included(an, sn); !ok {
+				c.Bad(key, ipos, fmt.Sprintf("with size-prefixed (negative-count) blocks %s can consume %q, the specification's layout is %s", m, word(wit), negSpec))
+				continue
+			}
+			if ok, wit := included(sn, an); !ok {
+				c.Bad(key, ipos, fmt.Sprintf("the specification allows %q for size-prefixed blocks, which %s does not accept", word(wit), m))
+				continue
+			}
+			if ok, wit := included(ap, sp); !ok {
+				c.Bad(key, ipos, fmt.Sprintf("with plain (non-negative-count) blocks %s can consume %q, the specification's layout is %s", m, word(wit), pos))
+				continue
+			}
+			if ok, wit := included(sp, ap); !ok {
+				c.Bad(key, ipos, fmt.Sprintf("the specification allows %q for plain blocks, which %s does not accept", word(wit), m))
+				continue
+			}
+			if m == "Skip" {
+				c.OK(key, ipos, fmt.Sprintf("negative counts: exactly %s (the length skipped is the byte size, not the count); non-negative counts: exactly %s", negSpec, pos))
+				continue
+			}
+			// Read: the item loop must be driven by the negated count. Some
+			// negation of the count, made where it is known negative, merges
+			// with the count itself in a phi.
+			negated := false
+			for _, b := range fn.Blocks {
+				for _, in := range b.Instrs {
+					u, ok := in.(*ssa.UnOp)
+					if !ok || u.Op != token.SUB {
+						continue
+					}
+					o := varintOrigin(P, u.X, 0)
+					if o == nil || !origins[o] {
+						continue
+					}
+					knownNeg := false
+					for _, f := range cmpFactsAt(u.Block()) {
+						if fo := varintOrigin(P, f.X, 0); fo == o && f.Op == token.LSS {
+							if k, isK := constInt(f.Y); isK && k == 0 {
+								knownNeg = true
 							}
-							continue
-						}
-						sc := call.Call.StaticCallee()
-						if sc == nil {
-							continue
-						}
-						switch qualNameShort(sc) {
-						case "(*ReadBuf).Varint":
-							varints = append(varints, call)
-						case "(*ReadBuf).Next", "(*ReadBuf).NextAsString", "skip":
-							skips = append(skips, call)
 						}
 					}
-				}
-				if len(varints) != 1 {
-					c.Bad(key, pos, fmt.Sprintf("the negative-count branch reads %d varints, the specification puts exactly one (the block's byte size) there", len(varints)))
-					continue
-				}
-				bs := extractOf(varints[0], 0)
-				if m == "Read" {
-					// negation flows into the item loop
-					negated := false
-					for b := range region {
-						for _, in := range b.Instrs {
-							if u, ok := in.(*ssa.UnOp); ok && u.Op == token.SUB && stripConv(u.X) == stripConv(count) {
-								for _, r := range referrersOf(u) {
-									if phi, ok := r.(*ssa.Phi); ok && !region[phi.Block()] {
-										for _, e := range phi.Edges {
-											if e == count {
-												negated = true
-											}
-										}
-									}
+					if !knownNeg {
+						continue
+					}
+					for _, r := range referrersOf(u) {
+						if phi, ok := r.(*ssa.Phi); ok {
+							for _, e := range phi.Edges {
+								if eo := varintOrigin(P, e, 0); eo == o && stripConv(e) == stripConv(u.X) {
+									negated = true
 								}
 							}
 						}
-					}
-					// region must rejoin the non-negative path (a successor outside the region that the false edge also reaches)
-					rejoins := false
-					falseReach := reachableFrom(iff.Block().Succs[1], map[*ssa.BasicBlock]bool{iff.Block(): true})
-					for b := range region {
-						for _, s := range b.Succs {
-							if !region[s] && falseReach[s] {
-								rejoins = true
-							}
-						}
-					}
-					switch {
-					case len(skips) > 0 || subs > 0:
-						c.Bad(key, pos, "the negative-count branch of Read consumes more than the byte-size varint")
-					case !negated:
-						c.Bad(key, pos, "the negative count is not negated before it drives the item loop")
-					case !rejoins:
-						c.Bad(key, pos, "after the byte size the negative-count branch does not join the item loop")
-					default:
-						c.OK(key, pos, "count = -count, one varint discarded, then the same item loop")
-					}
-				} else {
-					okSkip := len(skips) == 1 && subs == 0
-					if okSkip {
-						// the skipped length is the byte size just read
-						arg := skips[0].Call.Args[len(skips[0].Call.Args)-1]
-						okSkip = bs != nil && stripConv(arg) == ssa.Value(bs)
-					}
-					// afterwards control returns to the block-count read, not to the items
-					back := false
-					hdr := iff.Block()
-					for hdr != nil {
-						isHdr := false
-						for _, in := range hdr.Instrs {
-							if call, ok := in.(*ssa.Call); ok && call.Call.StaticCallee() != nil && qualNameShort(call.Call.StaticCallee()) == "(*ReadBuf).Varint" && extractOf(call, 0) == stripConv(count) {
-								isHdr = true
-							}
-						}
-						if isHdr {
-							break
-						}
-						hdr = hdr.Idom()
-					}
-					if hdr != nil {
-						for b := range region {
-							for _, s := range b.Succs {
-								if s == hdr {
-									back = true
-								}
-								if !region[s] && s != hdr {
-									if _, isRet := s.Instrs[len(s.Instrs)-1].(*ssa.Return); !isRet {
-										okSkip = false
-									}
-								}
-							}
-						}
-					}
-					switch {
-					case !okSkip:
-						c.Bad(key, pos, "the negative-count branch of Skip does not skip exactly the byte size it has just read (and nothing else)")
-					case !back:
-						c.Bad(key, pos, "after skipping a size-prefixed block Skip does not return to reading the next block count")
-					default:
-						c.OK(key, pos, "byte size read, exactly that many bytes skipped, back to the next block count")
 					}
 				}
 			}
+			if !negated {
+				c.Bad(key, ipos, "the negative count is not negated before it drives the item loop")
+				continue
+			}
+			c.OK(key, ipos, fmt.Sprintf("negative counts: count = -count and exactly %s; non-negative counts: exactly %s", negSpec, pos))
 		}
 	}
 }
@@ -1072,15 +1030,55 @@ func stripLoadThroughLocal(v ssa.Value) ssa.Value {
 }
 
 func derivesFromReadByte(v ssa.Value) bool {
-	for i := 0; i < 6; i++ {
+	return derivesFromReadByteD(v, 0)
+}
+
+// derivesFromReadByteD: v is computed (by arithmetic on one operand chain)
+// from the byte returned by (*ReadBuf).ReadByte, possibly inside a module
+// helper that hands it back as a result.
+func derivesFromReadByteD(v ssa.Value, depth int) bool {
+	if depth > 3 {
+		return false
+	}
+	for i := 0; i < 8; i++ {
 		switch x := v.(type) {
 		case *ssa.BinOp:
 			v = x.X
 		case *ssa.Convert:
 			v = x.X
+		case *ssa.ChangeType:
+			v = x.X
 		case *ssa.Extract:
 			call, ok := x.Tuple.(*ssa.Call)
-			return ok && call.Call.StaticCallee() != nil && qualNameShort(call.Call.StaticCallee()) == "(*ReadBuf).ReadByte"
+			if !ok || call.Call.StaticCallee() == nil {
+				return false
+			}
+			sc := call.Call.StaticCallee()
+			if qualNameShort(sc) == "(*ReadBuf).ReadByte" {
+				return x.Index == 0
+			}
+			if sc.Blocks == nil || sc.Pkg == nil || x.Index >= sc.Signature.Results().Len() {
+				return false
+			}
+			n := 0
+			for _, b := range sc.Blocks {
+				if b == sc.Recover {
+					continue
+				}
+				ret, ok := b.Instrs[len(b.Instrs)-1].(*ssa.Return)
+				if !ok {
+					continue
+				}
+				r := resolvedResults(ret)[x.Index]
+				if _, isC := stripConv(r).(*ssa.Const); isC {
+					continue
+				}
+				if !derivesFromReadByteD(r, depth+1) {
+					return false
+				}
+				n++
+			}
+			return n > 0
 		default:
 			return false
 		}
